@@ -102,7 +102,23 @@ def build_base(cfg):
     return tree
 
 
+class _Tmpl:
+    """dict-like view name -> template, so that World-A monitors can be
+    reused on the master's cell."""
+
+    def __getitem__(self, name):
+        return name.split('#')[0].split('.', 1)[1]
+
+    def get(self, name, default=None):
+        try:
+            return self[name]
+        except (IndexError, AttributeError):
+            return default
+
+
 class MasterWorld:
+    tmpl = _Tmpl()
+
     def __init__(self, cfg):
         CLOCK.reset()
         cellworld._PUT_SITES.clear()
@@ -116,6 +132,9 @@ class MasterWorld:
         self.tree = _BASE_CACHE[key].clone()
         self.admin = fakezk.Client(self.tree, ADMIN_SID)
         self.monitors = cfg.get('monitors', [])
+        self.cellmonitors = cfg.get('cellmonitors', [])
+        self.down_since_L = {}
+        self.put_log = []
         self.srv_variant = {n: 0 for n, s in cfg['servers'].items()
                             if s.get('initial', True)}
         self.alloc_variant = 0
@@ -125,6 +144,7 @@ class MasterWorld:
         self.last_results = []
         self.crash_at = None
         self.master_writes = 0
+        self._log_pos = 0
         self.tree.hook = self._hook
         self.start_master(first=True)
 
@@ -133,7 +153,7 @@ class MasterWorld:
     def cell(self):
         return self.master.cell
 
-    def tmpl(self, name):
+    def tmpl_of(self, name):
         return name.split('#')[0].split('.', 1)[1]
 
     def flag(self, clause, site, detail):
@@ -143,14 +163,20 @@ class MasterWorld:
         return cellworld._PUT_SITES.get(appname, '?')
 
     def _hook(self, client, op, path):
+        """Called before every ZooKeeper operation.  `master_writes` counts
+        the *successful* mutations of the current master session (taken from
+        tree.log); a crash is injected at the first operation issued after
+        `crash_at` of them reached ZooKeeper."""
         if client.sid != self.master_sid:
             return
-        if op in ('create', 'set', 'delete'):
-            if self.crash_at is not None and \
-                    self.master_writes == self.crash_at:
-                self.crash_at = None
-                raise fakezk.Crash()
-            self.master_writes += 1
+        log = self.tree.log
+        while self._log_pos < len(log):
+            if log[self._log_pos][0] == self.master_sid:
+                self.master_writes += 1
+            self._log_pos += 1
+        if self.crash_at is not None and self.master_writes >= self.crash_at:
+            self.crash_at = None
+            raise fakezk.Crash()
 
     def children(self, path):
         return self.admin.get_children(path)
@@ -165,6 +191,8 @@ class MasterWorld:
             self.tree.expire(self.master_sid)
         client = self.tree.client()
         self.master_sid = client.sid
+        self.master_client = client
+        self.master_writes = 0
         backend = zkbackend.ZkBackend(client)
         self.master = tm_master.Master(backend, 'cell')
         return self.master
@@ -196,11 +224,17 @@ class MasterWorld:
         del _SCHEDULE_RESULTS[:]
         del cellworld._QUEUES[:]
         del cellworld._PUT_LOG[:]
+        pre = cellworld.snapshot_cell(m.cell) if self.cellmonitors else None
         m.reschedule()
         m.check_placement_integrity()
         self.last_results = list(_SCHEDULE_RESULTS)
         self.stats['cycles'] += 1
         self.after_cycle('reschedule')
+        if self.cellmonitors:
+            self.put_log = list(cellworld._PUT_LOG)
+            queues = [list(q) for q in cellworld._QUEUES]
+            for mon in self.cellmonitors:
+                mon(self, pre, self.last_results[-1], queues)
 
     def after_cycle(self, kind):
         for mon in self.monitors:
@@ -244,6 +278,7 @@ class MasterWorld:
         elif kind == 'pres-':
             admin.delete(z.path.server_presence(body[1]))
             self.deliver(z.SERVER_PRESENCE)
+            self._track_states()
         elif kind == 'pres+':
             name, v = body[1], body[2]
             spec = cfg['servers'][name]
@@ -328,14 +363,32 @@ class MasterWorld:
             return
         else:
             raise AssertionError('unknown event %r' % (ev,))
+        self._track_states()
         if cyc:
             self.cycle()
+
+    def _track_states(self):
+        for name, srv in self.master.servers.items():
+            if srv.state is State.down:
+                self.down_since_L.setdefault(name, CLOCK.L)
+            else:
+                self.down_since_L.pop(name, None)
+        for name in list(self.down_since_L):
+            if name not in self.master.servers:
+                del self.down_since_L[name]
 
     # -- crash injection ------------------------------------------------------
     def count_writes(self, step):
         """Run `step` to completion and return the number of master writes."""
+        self._hook(self.master_client, 'flush', '/')
         before = self.master_writes
+        sid = self.master_sid
         self.run_step(step)
+        if step == 'restart':
+            # all writes of the new session belong to the step
+            return sum(1 for e in self.tree.log if e[0] == self.master_sid)
+        self._hook(self.master_client, 'flush', '/')
+        assert sid == self.master_sid
         return self.master_writes - before
 
     def run_step(self, step):
@@ -353,9 +406,10 @@ class MasterWorld:
         if step == 'restart':
             # the crash hits the *new* master during its start-up
             self.new_master()
-            self.crash_at = self.master_writes + k
+            self.crash_at = k
             crashed = self._crashing(self._startup_body)
         else:
+            self._hook(self.master_client, 'flush', '/')
             self.crash_at = self.master_writes + k
             crashed = self._crashing(self.cycle)
         self.crash_at = None
@@ -477,7 +531,7 @@ class MasterWorld:
         rank = {n: i for i, n in enumerate(sorted(names, key=cellworld._seq))}
 
         def ren(n):
-            return (self.tmpl(n), rank[n]) if n in rank else n
+            return (self.tmpl_of(n), rank[n]) if n in rank else n
         # ctime ranks among presence / placement nodes
         stamps = set()
         pres = {}
@@ -527,5 +581,5 @@ class MasterWorld:
              if tree.find(z.BLACKEDOUT_APPS) else None),
         )
         m = self.master
-        return (zk, cellworld.canon_cell(m.cell, self.tmpl), m.up_to_date,
+        return (zk, cellworld.canon_cell(m.cell, self.tmpl_of), m.up_to_date,
                 tuple(sorted(m.servers)), tuple(m.apps_blacklist), CLOCK.L)
